@@ -82,13 +82,20 @@ Theorem C16_real_sample_is_C03_sound : forall bs n hto ops e i,
 Proof. exact her_real_sample_sound. Qed.
 Print Assumptions C16_real_sample_is_C03_sound.
 
-(* the candidates of np.random.choice are exactly the sampleable (slot, env) cells; the batch is split into nb_virtual relabelled
-   and B - nb_virtual real elements: both parts come from those cells only and add up to the batch size *)
-Theorem C16_batch_from_valid_cells : forall b f n B, 0 <= h_nenv b ->
+(* the candidates of np.random.choice are exactly the sampleable (slot, env) cells; ANY B draws from them are split (regenerated: np.split at
+   [nb_virtual], first part to _get_virtual_samples, rest to _get_real_samples, batch = cat(real, virtual)) into nb_virtual relabelled and
+   B - nb_virtual real cells: every cell of both parts is sampleable, none is dropped or duplicated *)
+Theorem C16_batch_from_valid_cells : forall b f n B draws, 0 <= h_nenv b ->
   (In f (valid_flat b) <->
    exists i e, f = i * h_nenv b + Z.of_nat e /\ 0 <= i < h_cap b /\ (Z.of_nat e < h_nenv b) /\ valid (h_cols b e) i = true) /\
-  (0 <= n -> 0 <= B -> let v := nb_virtual n B in 0 <= v /\ 0 <= B - v /\ v + (B - v) = B).
-Proof. exact (fun b f n B Hn => conj (valid_flat_spec b f Hn) (her_batch_split n B)). Qed.
+  (0 <= n -> 0 <= B -> Z.of_nat (length draws) = B -> Forall (fun f => In f (valid_flat b)) draws ->
+   let '(vi, re) := her_split n B draws in
+   Z.of_nat (length vi) = nb_virtual n B /\ Z.of_nat (length re) = B - nb_virtual n B /\ vi ++ re = draws /\
+   Forall (fun f => In f (valid_flat b)) vi /\ Forall (fun f => In f (valid_flat b)) re /\
+   her_batch_cells n B draws = map (fun f => (false, f)) re ++ map (fun f => (true, f)) vi /\
+   (her_split_what, her_split_at, her_split_env_what, her_split_env_at, her_real_uses, her_virtual_uses, her_batch_order, her_candidates) = (1, 1, 1, 1, 1, 1, 1, 1) /\
+   her_candidates_size B = B).
+Proof. exact (fun b f n B draws Hn => conj (valid_flat_spec b f Hn) (her_split_spec b n B draws)). Qed.
 Print Assumptions C16_batch_from_valid_cells.
 
 (* ---- ties to the code regenerated from her_replay_buffer.py on every run ---- *)
